@@ -22,7 +22,10 @@ import walkerlib
 
 def run(c):
     thorough = c.tier == "thorough"
-    c.rule = ("random rule sets (1-3 rules files, 1-5 groups each, 1-2 Match statements with 1-3 alternatives drawn from a "
+    c.rule = ("random load histories (1-4 Load calls into one engine with a GroupFilter; each file has Match groups, MatchComment "
+              "groups only, both, only groups the filter disables, or imports a rule bundle from disk -- some bundles end with a "
+              "file without syntax rules or have none; the last Load adds no syntax rule in about a quarter of the histories; "
+              "1-5 groups per file, 1-2 Match statements with 1-3 alternatives drawn from a "
               "catalogue of ~80 pattern templates covering every bucket tag plus statement-, expression- and declaration-list "
               "patterns; filters none / Deadcode / !Deadcode / Const) run over a type-checked kitchen-sink file, generated "
               "nestings and repository test files; every engine report is one evaluation; a case is non-trivial and distinct "
@@ -33,7 +36,9 @@ def run(c):
         "Section hypothesis of C01_reports_exact: MatchNode only calls back on nodes whose tag is compatible with the pattern's root tag "
         "(compat_spec, written from gogrep's MatchNode; validated by the engine-vs-oracle runs, whose oracle offers every node to every rule)",
     ]
-    c.notes += ["Field, FieldList, Comment, CommentGroup (and Bad*) nodes have no gogrep tag and are never offered",
+    c.notes += ["comment rules appear with plain regexps only (first matching rule per comment, in load order, after the walk): enough to "
+                "see that merging keeps them; their own semantics is C12's",
+                "Field, FieldList, Comment, CommentGroup (and Bad*) nodes have no gogrep tag and are never offered",
                 "filters are an oracle here (C02/C17 are about them); the oracle evaluates Deadcode and Const independently"]
 
     c.build_theories()
@@ -104,13 +109,21 @@ def run(c):
                 c.nontriv("match:" + p)
             if o.get("contested"):
                 c.nontriv("contested:%s:%d" % (tag, o["set"]))
+            if o.get("loads") and o.get("engine"):
+                c.nontriv("load-history:" + "|".join(o["loads"]) + ":bundles=%d" % sum(o.get("parts") or []))
+            if o.get("last_lean"):
+                c.coverage["histories_whose_last_load_adds_no_syntax_rule"] = c.coverage.get("histories_whose_last_load_adds_no_syntax_rule", 0) + 1
+            if sum(o.get("parts") or []):
+                c.coverage["histories_with_bundle_imports"] = c.coverage.get("histories_with_bundle_imports", 0) + 1
             if o.get("mismatch"):
                 c.fail("oracle", "Engine.Run reports differ from ast.Inspect x MatchNode, first accepting rule wins: " + o["mismatch"],
-                       input={"rules_files": o.get("files"), "load_order": o.get("order"), "target": o.get("src"), "seed": seed, "set": o["set"]},
+                       input={"rules_files": o.get("files"), "load_order": o.get("order"), "target": o.get("src"), "seed": seed, "set": o["set"],
+                              "group_filter": "groups named *_off are disabled", "bundles": "harness/fake/wb1..wb4 (imported with the prefix shown in the file)",
+                              "load_history": o.get("loads")},
                        expected=[(r["r"], r["p"], r["e"]) for r in (o.get("oracle") or [])][:40],
                        observed=[(r["r"], r["p"], r["e"]) for r in (o.get("engine") or [])][:40])
             elif len(c.samples) < 4 and o.get("engine"):
-                c.sample({"target": o["target"], "rules": [(r["group"], r["src"], r["filter"]) for r in o["rules"]][:6],
+                c.sample({"target": o["target"], "rules": [(r["group"], r["src"], r["filter"]) for r in (o.get("rules") or [])][:6],
                           "reports": len(o["engine"]), "contested_nodes": o.get("contested")})
         if rc != 0 or not sets:
             c.obligation("harness-run:rules", False, out[-2000:])
@@ -137,10 +150,20 @@ def run(c):
                     t = re.sub(r"K<(\w+)>", lambda m: str(kidx.get(m.group(1), 9999)), o["tree"])
                     t = re.sub(r"F<(\w+|\?)>", lambda m: str(fidx.get(m.group(1), 9999)), t)
                     src.append("Definition %s : node := %s." % (trees[o["target"]], t))
-                rs = "; ".join("R %d %d" % (r["idx"], r["tag"]) for r in o["rules"])
+                # the load history: per Load call the file's own (syntax rules, comment rules), then each imported bundle file's
+                fl = []
+                for li, nparts in enumerate(o.get("parts") or [0]):
+                    def part(pi):
+                        rs_ = [r for r in (o.get("rules") or []) if r.get("load", 0) == li and r.get("part", 0) == pi]
+                        return ("[%s]" % "; ".join("R %d %d" % (r["idx"], r["tag"]) for r in rs_ if not r.get("comment")),
+                                "[%s]" % "; ".join(str(r["idx"]) for r in rs_ if r.get("comment")))
+                    own = part(0)
+                    fl.append("(%s, %s, [%s])" % (own[0], own[1], "; ".join("(%s, %s)" % part(pi) for pi in range(1, nparts + 1))))
+                rs = "; ".join(fl)
+                iscomment = {r["idx"]: bool(r.get("comment")) for r in (o.get("rules") or [])}
                 mt = "; ".join("(%d, %d, [%s])" % (e["n"], e["r"], "; ".join("(%d, %d, %s)" % (cb[0], cb[1], "true" if cb[2] else "false") for cb in e["c"]))
                                for e in (o.get("m") or []))
-                eng = "; ".join("(%d, %d, %d)" % (r["r"], r["p"], r["e"]) for r in (o.get("engine") or []))
+                eng = "; ".join("(%d, %d, %d)" % (r["r"], r["p"], r["e"]) for r in (o.get("engine") or []) if not iscomment.get(r["r"]))
                 src.append("Definition X%d := check_run %s [%s] [%s] [%s]." % (gi, trees[o["target"]], rs, mt, eng))
                 names.append("X%d" % gi)
             src.append("Definition RES := Eval vm_compute in [%s]." % "; ".join(names))
@@ -160,9 +183,9 @@ def run(c):
             for o, (code, idx) in zip(sh, pairs):
                 nk += 1
                 if int(code) != 0:
-                    c.fail("corr", "model of load + dispatch (on the oracle's matcher table) and Engine.Run differ" +
-                           (" at report #%s" % idx if int(code) == 2 else ": the model has no result"),
-                           input={"set": o["set"], "target": o["target"], "rules": [(r["group"], r["line"], r["src"], r["filter"]) for r in o["rules"]]},
+                    c.fail("corr", "model of load history + dispatch (on the oracle's matcher table) and Engine.Run differ" +
+                           (" at syntax report #%s" % idx if int(code) == 2 else ": the model has no result"),
+                           input={"set": o["set"], "target": o["target"], "rules": [(r["group"], r["line"], r["src"], r["filter"]) for r in (o.get("rules") or [])]},
                            observed=(o["engine"][int(idx)] if int(idx) < len(o.get("engine") or []) else None))
         c.coverage["model_vs_impl_runs"] = c.coverage.get("model_vs_impl_runs", 0) + nk
 
